@@ -8,6 +8,7 @@ mod c09;
 mod c08;
 mod c14;
 mod c05;
+mod c11;
 mod animgen;
 mod webpfile;
 mod oracle;
@@ -75,6 +76,7 @@ fn main() {
         "C08" => c08::run(&o),
         "C14" => c14::run(&o),
         "C05" => c05::run(&o),
+        "C11" => c11::run(&o),
         _ => {
             eprintln!("unknown property {prop}");
             std::process::exit(2);
